@@ -122,7 +122,7 @@ def oracle_replies(res):
         return fails
     for a, c in zip(good, new):
         tid = a["target_id"][4:] if a["target_id"].startswith("Com:") else a["target_id"]
-        if "".join(t for p in c["paras"] for t in p["text"]) != a["text"] or c.get("author") != engine_oracles.SESSION_AUTHOR:
+        if "".join(t for p in c["paras"] for t in p["text"]) != a["text"] or c.get("author") != res.get("author", engine_oracles.SESSION_AUTHOR):
             fails.append(f"reply {a['text']!r}: wrong text or author in the new comment")
         if thread_root(out, c["id"]) != thread_root(out, tid):
             fails.append(f"reply {a['text']!r} is not threaded under the thread of comment {tid}")
@@ -136,7 +136,8 @@ def oracle_replies(res):
                 break
             if not any(f"[Com:{c['id']}]" in t for t in metas):
                 fails.append(f"reply {a['text']!r} is not shown with the comment it answers")
-    d = engine_oracles.canon_diff(doc, engine_oracles.reject_session(out, set(), {c["id"] for c in new}))
+    # (a reply creates no revision mark: only the new comments are taken out again)
+    d = engine_oracles.canon_diff(doc, engine_oracles.reject_session(out, set(), {c["id"] for c in new}, author="\x00nobody"))
     if d:
         fails.append("replies changed document content: " + d)
     return fails
